@@ -509,13 +509,17 @@ class Scenario:
             if not own:
                 self.do('cqm2 = dimod.ConstrainedQuadraticModel()')
             target = 'cqm' if own else 'cqm2'
-            before = self.snap_all([res, cm + 'l'] + sorted(self.views))
+            nocopy = self.r.random() < .2       # copy=False: the documented opt-out, the comparison's model is consumed
+            keep = ([] if nocopy else [res, cm + 'l']) + sorted(self.views)
+            before = self.snap_all(keep)
             pvars = list(self.ns[target].variables)
-            self.do(f'{target}.add_constraint({cm}, label={lbl!r})')
-            site2 = 'CQM.add_constraint(comparison of a view expression)'
-            if self.snap_all([res, cm + 'l'] + sorted(self.views)) != before:
+            self.do(f'{target}.add_constraint({cm}, label={lbl!r}{", copy=False" if nocopy else ""})')
+            site2 = 'CQM.add_constraint(comparison of a view expression)' + (' copy=False' if nocopy else '')
+            if self.snap_all(keep) != before:
                 self.fail(site2, 'operand modified', 'the comparison\'s model or a live view reads differently after add_constraint', '',
-                          watch=[res, cm + 'l'] + sorted(self.views))
+                          watch=keep)
+            if nocopy:
+                self.ctx.tick('views: add_constraint(comparison, copy=False)')
             self.do(f'v{lbl} = {target}.constraints[{lbl!r}].lhs')
             if list(self.ns[target].variables)[:len(pvars)] != pvars:
                 self.fail(site2, 'parent variables', 'add_constraint reordered the variables of the CQM', 'assert False')
